@@ -20,18 +20,18 @@ TEXT = {
     "C02": ("DESIGN §2 C02", "timestamp <-> UTC date-time correspondence over all i64 counts"),
     "C03": ("DESIGN §2 C03", "exact-or-refused date/date-time arithmetic"),
     "C04": ("DESIGN §2 C04", "instant vs wall clock for all date-times x all offsets"),
-    "C05": ("DESIGN §2 C05", "zone-data lookups (transition table, POSIX rule) vs a linear-scan reference, bounded zone size"),
+    "C05": ("DESIGN §2 C05 / §8.2", "zone-data lookups: transition table (bounded size) vs a linear-scan reference; POSIX rule evaluator (rule.rs) over its full integer domains"),
     "C06": ("DESIGN §2 C06", "TimeDelta as exact nanosecond count in a closed range"),
     "C07": ("DESIGN §2 C07", "time-of-day validity, wrap-around arithmetic and leap-second rules"),
     "C08": ("DESIGN §2 C08", "month stepping, field replacement, week helpers"),
     "C09": ("DESIGN §2 C09", "default text forms parse back (shape-contract split writer/reader)"),
-    "C10": ("DESIGN §2 C10", "RFC 3339 writer conformance and reader exactness at fixed lengths"),
-    "C11": ("DESIGN §2 C11", "RFC 2822 writer shape/round trip and obsolete-form templates"),
+    "C10": ("DESIGN §2 C10 / §8.2", "RFC 3339 writer conformance (date, time per fraction class, offset); reader not built"),
+    "C11": ("DESIGN §2 C11 / §8.2", "RFC 2822 writer shape with the reference weekday; reader not built"),
     "C12": ("DESIGN §2 C12", "strftime specifiers vs a reference renderer"),
-    "C13": ("DESIGN §2 C13", "format/parse inverse for a fixed family of format strings"),
+    "C13": ("DESIGN §2 C13 / §8.2", "format/parse inverse at item level for %H:%M:%S and %Y-%m-%d (real writer -> real parser)"),
     "C14": ("DESIGN §2 C14", "Parsed field resolution soundness/completeness over all field subsets"),
     "C15": ("DESIGN §2 C15", "no panic / overflow / invalid value in fallible entry points; StrftimeItems progress step"),
-    "C16": ("DESIGN §2 C16", "TZif / TZ-string readers total and exact on bounded shapes"),
+    "C16": ("DESIGN §2 C16 / §8.2", "accepted zones answer every query without panic/overflow (bounded table, full-domain rule evaluator); byte-level readers not built"),
     "C17": ("DESIGN §2 C17", "duration rounding lands on the right multiple; subsecond rounding"),
     "C18": ("DESIGN §2 C18", "Local cache decision logic under a ghost clock/environment"),
     "C19": ("DESIGN §2 C19", "Weekday/Month/WeekdaySet algebra, exhaustive by symbolic enumeration"),
